@@ -48,6 +48,9 @@ static void write_srec_line(
     }
   }
 
+  // A line that does not fit the 24 bit record needs the 32 bit one.
+  if (type == 2 && address > 0xffffff) { type = 3; }
+
   if (type <= 1)
   {
     address &= 0xffff;
